@@ -480,15 +480,18 @@ func (root *Root) replaceArgVars(vars map[string]interface{}, v interface{}, at 
 			it, _ = nn.Base.(*Input)
 		}
 		if it != nil {
+			// Build a new map, the literal is part of the parsed request
+			// which can be evaluated again with other variables.
+			cp := make(map[string]interface{}, len(tv))
 			for k, v := range tv {
 				var vt Type
 				if f := it.fields.get(k); f != nil {
 					vt = f.Type
 				}
-				tv[k], ea2 = root.replaceArgVars(vars, v, vt)
+				cp[k], ea2 = root.replaceArgVars(vars, v, vt)
 				ea = append(ea, ea2...)
 			}
-			if val, err = it.CoerceIn(val); err != nil {
+			if val, err = it.CoerceIn(cp); err != nil {
 				ea = append(ea, resWarnp(nil, "%s", err))
 			}
 		} else if ic, _ := at.(InCoercer); ic != nil {
@@ -507,10 +510,14 @@ func (root *Root) replaceArgVars(vars map[string]interface{}, v interface{}, at 
 		if lt != nil {
 			mt = lt.Base
 		}
+		// Build a new list, the literal is part of the parsed request which
+		// can be evaluated again with other variables.
+		cp := make([]interface{}, len(tv))
 		for i, v := range tv {
-			tv[i], ea2 = root.replaceArgVars(vars, v, mt)
+			cp[i], ea2 = root.replaceArgVars(vars, v, mt)
 			ea = append(ea, ea2...)
 		}
+		val = cp
 		if lt == nil {
 			// Not a list type, let the type decide whether a list is
 			// acceptable.
